@@ -450,6 +450,11 @@ def workload(tier, rng, shard, nshards, work):
                     import math
 
                     minT = math.nextafter(first, math.inf) if rng.random() < 0.5 else first * (1 + 4e-15)
+                if rng.random() < 0.12:
+                    # both ends of the file's span named in one call
+                    minT = rng.choice([tmin, tmin - 0.5, 0.0 if tmin > 0 else tmin - 1.0, (first + tmin) / 2 if first > tmin else tmin])
+                    maxT = rng.choice([tmax, tmax + 0.5, tmax + 2.0, (first + last) / 2])
+                    REC.cls("C04:both-overrides")
                 drive(tg, data, rng.choice(TC.FORMATS), blanks, minT, maxT, thr, work, k)
 
 
